@@ -434,3 +434,51 @@ def ad_groups_of(prog):
                             if s2[0] == "fact" and s2[1][0] == pred:
                                 groups.append([s2[1][1][i] for i in idxs])
     return [g for g in groups if g]
+
+
+def negcycle_program(rng):
+    """Small propositional/unary programs with predicate-level loops through negation, mixed
+    with probabilistic guards, positive recursion, evidence.  Classified by the reference."""
+    nf = rng.randint(1, 3)
+    prog = []
+    facts = []
+    for i in range(nf):
+        facts.append(A("f%d" % (i + 1)))
+        prog.append(("ad", [("p%d" % (i + 1), facts[-1])], []))
+    unary = rng.random() < 0.35
+    names = ["a", "b", "c", "d"][: rng.randint(2, 4)]
+    if unary:
+        prog += [("fact", A("dom", "x")), ("fact", A("dom", "y"))]
+
+    def atom(n, var=True):
+        if not unary:
+            return A(n)
+        return A(n, "X" if var and rng.random() < 0.7 else rng.choice(["x", "y"]))
+
+    for n in names:
+        for _ in range(rng.randint(1, 2)):
+            head = atom(n)
+            body = []
+            for _ in range(rng.randint(1, 3)):
+                if rng.random() < 0.4:
+                    body.append((rng.choice(facts), rng.random() < 0.25))
+                else:
+                    body.append((atom(rng.choice(names)), rng.random() < 0.5))
+            if unary:
+                vs = set(v for l in body + [(head, False)] for v in l[0][1] if is_var(v))
+                pos = [l for l in body if not l[1]]
+                bound = set(v for l in pos for v in l[0][1] if is_var(v))
+                body = [l for l in body if not l[1]] + [P(A("dom", v)) for v in sorted(vs - bound)] + \
+                       [l for l in body if l[1]]
+            else:
+                body = [l for l in body if not l[1]] + [l for l in body if l[1]]
+            prog.append(("rule", head, body))
+    for _ in range(rng.randint(1, 2)):
+        q = atom(rng.choice(names), var=rng.random() < 0.3)
+        if ("query", q) not in prog:
+            prog.append(("query", q))
+    if rng.random() < 0.4:
+        e = rng.choice(facts) if rng.random() < 0.6 else atom(rng.choice(names), var=False)
+        if ("query", e) not in prog:
+            prog.append(("evidence", e, rng.random() < 0.5))
+    return prog
